@@ -158,7 +158,11 @@ def semRef (start : Bytes) (v : Visit Attr) (p : Prim) (s : ES) : Bool × ES :=
     let ev : ExecEvent := match v.ent.node with
       | .dir _ false _ _ kids => ⟨path :: kids.map fun k => pushName path k.name, some []⟩
       | _ => ⟨[path], none⟩
-    (true, { s with gs := { s.gs with execs := s.gs.execs ++ [ev] } })
+    -- the action is true for an entry it removed and false for one it could not remove; which
+    -- entries went is an observation the predicate supplies (`refRunXD`: the removed paths, behind
+    -- the marker `[0]`, in the reference's initial state); without it the action counts as true
+    let truth := !s.gs.deleted.contains [0] || path == [46] || s.gs.deleted.contains path
+    (truth, { s with gs := { s.gs with execs := s.gs.execs ++ [ev] } })
   | p => sem start v p s
 
 def evalRefEntryX (l : List (List (List XP))) (start : Bytes) (v : Visit Attr) (g : GS) : EvalOut × GS :=
@@ -187,6 +191,18 @@ def refRunX (follow : Follow) (roots : List (Bytes × Option (Node Attr))) (args
   | none => none
   | some l =>
     let r := refRootsX (refCfg c) c.sorted l roots ⟨{ script := script }, 0, 0⟩
+    some (⟨r.st.out, r.ret, r.diags, r.st.unspec⟩, r.st.execs)
+
+/-- reference run of an expression with -delete, told which of the paths the action is reached on
+    were in fact removed (for the truth value of the action) -/
+def refRunXD (follow : Follow) (roots : List (Bytes × Option (Node Attr))) (args : List Arg) (removed : List Bytes) :
+    Option (RefRes × List ExecEvent) :=
+  let c := args.foldl applyArg { follow := follow }
+  let roots := if c.xdev then roots.map (fun r => (r.1, r.2.map (cutRoot c.follow))) else roots
+  match parseExpr (args.map Arg.tok') with
+  | none => none
+  | some l =>
+    let r := refRootsX (refCfg c) c.sorted l roots ⟨{ deleted := [0] :: removed }, 0, 0⟩
     some (⟨r.st.out, r.ret, r.diags, r.st.unspec⟩, r.st.execs)
 
 /-- reference run without exec scripts -/
